@@ -24,10 +24,6 @@ Definition record12_cbc (H : hashfn) (enc_key mac_key iv payload : bytes) (e s t
 Definition record12_cbc_cid (H : hashfn) (enc_key mac_key iv cid inner : bytes) (e s v : N) : bytes :=
   record12_cbc_with (cbc_mac_cid H mac_key e s v cid inner) enc_key iv cid inner e s ct_tls12_cid v.
 
-(* connection ID, MAC input as /repo computes it (F8) *)
-Definition record12_cbc_cid_as_coded (H : hashfn) (enc_key mac_key iv cid inner : bytes) (e s v : N) : bytes :=
-  record12_cbc_with (cbc_mac_cid_as_coded H mac_key e s v cid inner) enc_key iv cid inner e s ct_tls12_cid v.
-
 (* ---------------- a passive decoder keyed from the key log ----------------
    Given only (master secret, client random, server random) - what KeyLogWriter and the hello
    messages reveal - the suite id, the sender's role, the record header fields, the plaintext and
@@ -35,7 +31,7 @@ Definition record12_cbc_cid_as_coded (H : hashfn) (enc_key mac_key iv cid inner 
    the suites whose primitive is modelled (AES-CCM, AES-CBC). *)
 From DtlsV Require Import Crypto.C10Prf Crypto.C10Suites.
 
-Definition live_record12 (mac_as_coded : bool) (id : N) (is_client : bool)
+Definition live_record12 (id : N) (is_client : bool)
     (ms cr sr cid payload explicit_iv : bytes) (e s t v : N) : option (list bytes) :=
   match suite12 id with
   | None => None
@@ -48,9 +44,7 @@ Definition live_record12 (mac_as_coded : bool) (id : N) (is_client : bool)
     | CK_CBC mh =>
         let wm := write_mac is_client k in
         let HM := hash_of_code mh in
-        let mac := if t =? ct_tls12_cid
-                   then (if mac_as_coded then cbc_mac_cid_as_coded HM wm e s v cid payload
-                         else cbc_mac_cid HM wm e s v cid payload)
+        let mac := if t =? ct_tls12_cid then cbc_mac_cid HM wm e s v cid payload
                    else cbc_mac HM wm e s t v payload in
         Some [record12_cbc_with mac wk explicit_iv cid payload e s t v]
     | _ => None
